@@ -25,7 +25,10 @@ use wverif_common::*;
 
 const CANARY: usize = 64;
 const FILL: u8 = 0xA5;
-const NAMES: [&str; 16] = ["f0", "f1", "f2", "f3", "g0", "g1", "g2", "g3", "g4", "g5", "g6", "g7", "g8", "g9", "ga", "gb"];
+const NAMES: [&str; 20] = ["f0", "f1", "f2", "f3", "g0", "g1", "g2", "g3", "g4", "g5", "g6", "g7", "g8", "g9", "ga", "gb",
+                           "n259", "n260", "n261", "n1024"];
+/// MAX_PATH of the StormLib API: SFILE_FIND_DATA.cFileName and the buffer of SFileGetFileName hold 260 chars
+const MAX_PATH: usize = 260;
 
 // ------------------------------------------------------------------------------------------
 // canary-guarded buffers
@@ -33,19 +36,24 @@ const NAMES: [&str; 16] = ["f0", "f1", "f2", "f3", "g0", "g1", "g2", "g3", "g4",
 struct Guarded {
     raw: Vec<u8>,
     cap: usize,
+    pad: usize,
 }
 impl Guarded {
     fn new(cap: usize) -> Self {
-        Guarded { raw: vec![FILL; cap + 2 * CANARY], cap }
+        Guarded::wide(cap, CANARY)
+    }
+    /// guard zones of `pad` bytes (wide ones keep an unbounded copy of the callee inside our allocation)
+    fn wide(cap: usize, pad: usize) -> Self {
+        Guarded { raw: vec![FILL; cap + 2 * pad], cap, pad }
     }
     fn ptr(&mut self) -> *mut u8 {
-        unsafe { self.raw.as_mut_ptr().add(CANARY) }
+        unsafe { self.raw.as_mut_ptr().add(self.pad) }
     }
     fn data(&self) -> &[u8] {
-        &self.raw[CANARY..CANARY + self.cap]
+        &self.raw[self.pad..self.pad + self.cap]
     }
     fn intact(&self) -> bool {
-        self.raw[..CANARY].iter().all(|b| *b == FILL) && self.raw[CANARY + self.cap..].iter().all(|b| *b == FILL)
+        self.raw[..self.pad].iter().all(|b| *b == FILL) && self.raw[self.pad + self.cap..].iter().all(|b| *b == FILL)
     }
 }
 
@@ -66,6 +74,12 @@ fn err_class(e: u32) -> &'static str {
 }
 
 fn real_name(n: &str) -> String {
+    // name-length classes around MAX_PATH: "n<len>" is an archived name of exactly <len> bytes, each with its own
+    // fill letter so that a truncated prefix still identifies the name
+    if let Some(len) = n.strip_prefix('n').and_then(|x| x.parse::<usize>().ok()) {
+        let fill = match len { 259 => 'p', 260 => 'q', 261 => 'r', _ => 's' };
+        return format!("d\\{}", fill.to_string().repeat(len - 2));
+    }
     if NAMES.contains(&n) {
         format!("data\\{n}.bin")
     } else {
@@ -74,11 +88,41 @@ fn real_name(n: &str) -> String {
 }
 fn model_name(n: &str) -> String {
     for m in NAMES {
-        if n.eq_ignore_ascii_case(&format!("data\\{m}.bin")) {
+        if n.eq_ignore_ascii_case(&real_name(m)) {
             return m.to_string();
         }
     }
     n.to_string()
+}
+/// Name read out of a MAX_PATH field: the model name if it is exactly the archived name cut to 259 bytes.
+fn model_name_maxpath(n: &str) -> String {
+    for m in NAMES {
+        let r = real_name(m);
+        let cut = &r.as_bytes()[..r.len().min(MAX_PATH - 1)];
+        if n.as_bytes().eq_ignore_ascii_case(cut) {
+            return m.to_string();
+        }
+    }
+    n.to_string()
+}
+/// (string up to the first NUL within the array or the whole array, is there a NUL inside the array)
+fn cstr_in(arr: &[u8]) -> (String, bool) {
+    match arr.iter().position(|b| *b == 0) {
+        Some(p) => (String::from_utf8_lossy(&arr[..p]).into_owned(), true),
+        None => (String::from_utf8_lossy(arr).into_owned(), false),
+    }
+}
+/// forged handle values derived from a live handle (all of them are invalid handles)
+fn forge(real: usize, kind: i64) -> usize {
+    match kind {
+        1 => real | (1usize << 32),
+        2 => real | (1usize << 63),
+        3 => real.wrapping_add(7usize << 32),
+        4 => real | 0xFFFF_FFFF_0000_0000usize,
+        5 => real + (1usize << 16),
+        6 => real + (1usize << 31),
+        _ => real,
+    }
 }
 
 // ------------------------------------------------------------------------------------------
@@ -218,6 +262,7 @@ struct Res {
     err: &'static str,
     rres: &'static str,
     canary: bool,
+    nul: bool,
     sync: Option<(i64, Value)>,
     newh: Option<usize>,
 }
@@ -258,10 +303,11 @@ fn exec(w: &Mutex<World>, call: &Value) -> Res {
     let n1 = gi(call, "n1");
     let n2 = gi(call, "n2");
     let dat = &call["dat"];
-    let h = { w.lock().unwrap().real(hm) };
+    let hf = call.get("hf").and_then(|x| x.as_i64()).unwrap_or(0);
+    let h = forge({ w.lock().unwrap().real(hm) }, hf);
     let hp = h as storm::HANDLE;
     let cname = CString::new(real_name(name)).unwrap();
-    let mut r = Res { ret: 0, out: json!([]), err: "ok", rres: "-", canary: true, sync: None, newh: None };
+    let mut r = Res { ret: 0, out: json!([]), err: "ok", rres: "-", canary: true, nul: true, sync: None, newh: None };
     unsafe {
         match f {
             "OpenArchive" => {
@@ -371,14 +417,18 @@ fn exec(w: &Mutex<World>, call: &Value) -> Res {
                 r.ret = if v == u32::MAX { -1 } else { v as i64 };
             }
             "GetFileName" => {
-                let mut buf = Guarded::new(1024);
+                // n2 = 1: the buffer is exactly MAX_PATH chars (what the StormLib API promises the callee), else 1 KiB
+                let mut buf = Guarded::wide(if n2 == 1 { MAX_PATH } else { 1024 }, 2048);
                 let ok = storm::SFileGetFileName(hp, buf.ptr() as *mut libc::c_char);
                 r.err = last_err();
                 r.ret = ok as i64;
                 r.canary = buf.intact();
                 if ok {
-                    let s = CStr::from_ptr(buf.ptr() as *const libc::c_char).to_string_lossy().into_owned();
-                    r.out = json!([model_name(&s)]);
+                    let (s, nul) = cstr_in(buf.data());
+                    r.nul = nul;
+                    // the archived name, or (names longer than MAX_PATH - 1) its first 259 bytes
+                    let m = model_name(&s);
+                    r.out = json!([if NAMES.contains(&m.as_str()) { m } else { model_name_maxpath(&s) }]);
                 }
             }
             "GetFileInfo" => {
@@ -500,8 +550,10 @@ fn exec(w: &Mutex<World>, call: &Value) -> Res {
                 if !hv.is_null() {
                     r.ret = hv as usize as i64;
                     r.newh = Some(hv as usize);
-                    let s = CStr::from_ptr((*p).c_file_name.as_ptr()).to_string_lossy().into_owned();
-                    r.out = json!([model_name(&s)]);
+                    let arr: Vec<u8> = (*p).c_file_name.iter().map(|c| *c as u8).collect();
+                    let (s, nul) = cstr_in(&arr);
+                    r.nul = nul;               // every C string field is NUL-terminated inside its array
+                    r.out = json!([model_name_maxpath(&s)]);
                 }
             }
             "FindNext" => {
@@ -513,8 +565,10 @@ fn exec(w: &Mutex<World>, call: &Value) -> Res {
                 r.ret = ok as i64;
                 r.canary = fd.intact();
                 if ok {
-                    let s = CStr::from_ptr((*p).c_file_name.as_ptr()).to_string_lossy().into_owned();
-                    r.out = json!([model_name(&s)]);
+                    let arr: Vec<u8> = (*p).c_file_name.iter().map(|c| *c as u8).collect();
+                    let (s, nul) = cstr_in(&arr);
+                    r.nul = nul;               // every C string field is NUL-terminated inside its array
+                    r.out = json!([model_name_maxpath(&s)]);
                 }
             }
             "FindClose" => {
@@ -533,7 +587,12 @@ fn exec(w: &Mutex<World>, call: &Value) -> Res {
 /// One logged call of thread `th`: Inv, the real call, Ret.
 fn logged_call(log: &Log, w: &Mutex<World>, case: &str, th: &str, call: &Value) {
     let f = gs(call, "fn").to_string();
-    let h = { w.lock().unwrap().real(gi(call, "h")) } as i64;
+    let hf = call.get("hf").and_then(|x| x.as_i64()).unwrap_or(0);
+    let mut h = { w.lock().unwrap().real(gi(call, "h")) } as i64;
+    if hf != 0 {
+        // a forged value does not fit TLC's integers: it is logged as a negative number (never a live id)
+        h = -(hf * 100_000_000 + h % 100_000_000);
+    }
     let n1 = gi(call, "n1").clamp(i32::MIN as i64, i32::MAX as i64);
     // single-thread histories: what the Rust API lists for a writable archive right now (the listing of the C API is
     // compared with it, not with a model of when wow-mpq refreshes its read-only view)
@@ -548,12 +607,12 @@ fn logged_call(log: &Log, w: &Mutex<World>, case: &str, th: &str, call: &Value) 
         }
     }
     log.pending.lock().unwrap().insert(th.to_string(), (f.clone(), Instant::now()));
-    log.ev(json!({"ev":"Inv","case":case,"th":th,"fn":f,"h":h,"name":gs(call,"name"),"n1":n1,"n2":gi(call,"n2"),"dat":call["dat"]}));
+    log.ev(json!({"ev":"Inv","case":case,"th":th,"fn":f,"h":h,"name":gs(call,"name"),"n1":n1,"n2":gi(call,"n2"),"dat":call["dat"],"hf":hf}));
     LOCKS.with(|l| l.borrow_mut().clear());
     let r = exec(w, call);
     log.pending.lock().unwrap().remove(th);
     let locks: Vec<Value> = LOCKS.with(|l| l.borrow_mut().drain(..).map(|(k, held)| json!({"l": k, "held": held})).collect());
-    log.ev(json!({"ev":"Ret","case":case,"th":th,"fn":f,"st":"ok","ret":r.ret,"out":r.out,"err":r.err,"rres":r.rres,"canary":r.canary,
+    log.ev(json!({"ev":"Ret","case":case,"th":th,"fn":f,"st":"ok","ret":r.ret,"out":r.out,"err":r.err,"rres":r.rres,"canary":r.canary,"nul":r.nul,
                   "lt": LTRACE.load(Ordering::SeqCst) && th != "T0", "locks": locks}));
     if let Some((hh, m)) = r.sync {
         log.ev(json!({"ev":"Sync","case":case,"th":th,"h":hh,"rmap":m}));
@@ -916,7 +975,7 @@ fn worker(a: &Args) -> ! {
             let mut p = p;
             p.sort();
             for (th, f) in p {
-                log.ev(json!({"ev":"Ret","case":cid,"th":th,"fn":f,"st":"hang","ret":0,"out":[],"err":"other","rres":"-","canary":true,"lt":false,"locks":[]}));
+                log.ev(json!({"ev":"Ret","case":cid,"th":th,"fn":f,"st":"hang","ret":0,"out":[],"err":"other","rres":"-","canary":true,"nul":true,"lt":false,"locks":[]}));
             }
             std::fs::write(format!("{stem}.resume"), format!("{}", i + 1)).ok();
             std::process::exit(3);
@@ -998,7 +1057,7 @@ fn main() {
             o.sort();
             let st = if status.is_none() { "hang" } else { "abort" };
             for (th, (f, cid)) in o {
-                writeln!(out, "{}", json!({"ev":"Ret","case":cid,"th":th,"fn":f,"st":st,"ret":0,"out":[],"err":"other","rres":"-","canary":true,"lt":false,"locks":[]})).unwrap();
+                writeln!(out, "{}", json!({"ev":"Ret","case":cid,"th":th,"fn":f,"st":st,"ret":0,"out":[],"err":"other","rres":"-","canary":true,"nul":true,"lt":false,"locks":[]})).unwrap();
             }
             start = idx + 1;
         }
